@@ -165,7 +165,7 @@ class MessageAny(TlbScheme):
                 # the body still has to be placed afterwards: inline, or in a reference of its own
                 bits_left = builder.available_bits - 2 - len(init_cell.bits)
                 refs_left = builder.available_refs - len(init_cell.refs)
-                init_inline = refs_left >= 1 or (len(self.body.bits) <= bits_left and len(self.body.refs) <= refs_left)
+                init_inline = refs_left >= 1 or (not self.body.is_exotic and len(self.body.bits) <= bits_left and len(self.body.refs) <= refs_left)
             if init_inline:
                 builder.store_bit(0)  # Either left
                 builder.store_cell(self.init.serialize())
@@ -174,7 +174,8 @@ class MessageAny(TlbScheme):
                 builder.store_ref(self.init.serialize())
         else:
             builder.store_bit(0)  # maybe false
-        if len(self.body.bits) <= (builder.available_bits - 1) and len(self.body.refs) <= builder.available_refs:
+        # an exotic body (a library reference, a Merkle proof ...) is a cell of its own kind: copied inline it would become ordinary data
+        if not self.body.is_exotic and len(self.body.bits) <= (builder.available_bits - 1) and len(self.body.refs) <= builder.available_refs:
             builder.store_bit(0)  # Either left
             builder.store_cell(self.body)
         else:
